@@ -29,14 +29,16 @@ shielded objects exist, and the listener the user registered has not been garbag
 * `facade_members_protected` every public member of the generated facade table is protected
                             (tie A: `decide +kernel` over the table read from the source)
 * `blocked_after_facade`    the two combined, for the facade as generated
-* `close_again`             close() on a closed/lost device returns the cached set, changes nothing
-* `close_idem`              a second close() returns the same set as the first
-* `close_same_forever`      … and so does every later close(), after any further events
+* `close_again`             close() on a closed/lost device returns the cached set — the same object, possibly grown
+                            by the tasks of protocols that finished connecting after the close and are closed now
+* `close_idem`              a second close() right after one that returned gives exactly the same and changes nothing
+* `close_same_forever`      every later close(), after any further events, returns the same set, never with fewer tasks
 * `close_never_raises`      close() raises nothing of its own (and the model never runs out of
                             fuel); at most it propagates the user's own handler's exception
 * `close_returns`           … which cannot happen when no close-time handler raises
-* `protocols_closed_once`   every protocol's close() runs at most once, in order — exactly once
-                            when no close-time handler raises
+* `protocols_closed_once`   every protocol's close() runs at most once over any history (late closes included)
+* `protocols_closed_exactly_once` … and exactly once, in order, for every protocol registered when a close()
+                            returns (no close-time handler raising)
 * `push_stopped`            after close()/any report no push update reaches the user and
                             push_updater.start() is blocked — also when an earlier start() failed half-way
 * `blocked_after_connect_completes` a report / close() that arrives while connect() is still awaiting a
@@ -202,69 +204,99 @@ theorem blocked_after_facade (l : Listener) (hl : l ≠ .dead) (protos : List Pr
 
 /-! ## close() again -/
 
-/-- close() on a device that is already closed: the cached set, nothing changes, no exception -/
-theorem close_cached (cfg : Cfg) (s : St) (x : Nat) (h : Inv cfg s) (hp : s.pending = some x) :
-    step cfg s .userClose = (s, .set x s.tasks) := by
-  have hc : closeF cfg topFuel s = s := closeF_cached cfg 1 s x hp
+/-- close() on a device that is already closed and on which no protocol is late: the cached set,
+    nothing changes, no exception -/
+theorem close_cached (cfg : Cfg) (s : St) (x : Nat) (h : Inv cfg s) (hp : s.pending = some x)
+    (hnl : NoLate cfg s) : step cfg s .userClose = (s, .set x s.tasks) := by
+  have hc : closeF cfg topFuel s = s := closeF_cached cfg 2 s x hp hnl
   simp [step, hc, h.2, closeOut, hp, h.1.raised]
 
+/-- what close() on an already closed device does: it returns the SAME set (identity `x`), which
+    may have grown by the tasks of protocols that finished connecting after the first close
+    (those are closed now); it raises nothing of its own -/
+theorem close_closed (cfg : Cfg) (wf : WF cfg) (s : St) (x : Nat) (h : Inv cfg s)
+    (hp : s.pending = some x) :
+    (step cfg s .userClose).1.pending = some x ∧ s.tasks ≤ (step cfg s .userClose).1.tasks ∧
+      ((step cfg s .userClose).2 = .set x (step cfg s .userClose).1.tasks ∨
+        (step cfg s .userClose).2 = .userRaised) := by
+  obtain ⟨hpx, ht⟩ := step_closed_ext wf s x h hp .userClose
+  refine ⟨hpx, ht, ?_⟩
+  have hinv := inv_step wf h .userClose
+  simp only [step] at hpx hinv ⊢
+  split
+  · right; rfl
+  · rename_i hnf
+    left
+    simp only [hnf, Bool.false_eq_true, if_false] at hpx hinv
+    simp [closeOut, hpx, hinv.1.raised]
+
 /-- **C09, close() can be called again safely.**  After the user's close() or any report, and
-    anything after that: close() returns the cached task set, does not raise, and leaves the
-    state exactly as it was. -/
+    anything after that (also protocols finishing their connect()): close() returns the cached
+    task set — the same object, possibly grown by the tasks of late protocols it closes now —
+    and raises nothing of its own. -/
 theorem close_again (cfg : Cfg) (wf : WF cfg) (pre post : List Ev) (e : Ev)
     (he : e.isClosing = true) :
     ∃ x, (after cfg (pre ++ e :: post)).pending = some x ∧
-      step cfg (after cfg (pre ++ e :: post)) .userClose
-        = (after cfg (pre ++ e :: post), .set x (after cfg (pre ++ e :: post)).tasks) := by
+      (step cfg (after cfg (pre ++ e :: post)) .userClose).1.pending = some x ∧
+      (after cfg (pre ++ e :: post)).tasks ≤ (step cfg (after cfg (pre ++ e :: post)) .userClose).1.tasks ∧
+      ((step cfg (after cfg (pre ++ e :: post)) .userClose).2
+          = .set x (step cfg (after cfg (pre ++ e :: post)) .userClose).1.tasks ∨
+        (step cfg (after cfg (pre ++ e :: post)) .userClose).2 = .userRaised) := by
   obtain ⟨x, hx⟩ := closed_after cfg wf pre post e he
-  exact ⟨x, hx, close_cached cfg _ x (inv_after cfg wf _) hx⟩
+  exact ⟨x, hx, close_closed cfg wf _ x (inv_after cfg wf _) hx⟩
 
-/-- **C09, close is idempotent.**  After any history, when close() returned a set, the next
-    close() returns exactly that and changes nothing. -/
+/-- **C09, close is idempotent.**  After any history, when close() returned normally, the next
+    close() returns exactly that — same set, same tasks — and changes nothing: a close() that
+    returns leaves no protocol late. -/
 theorem close_idem (cfg : Cfg) (wf : WF cfg) (evs : List Ev) (x n : Nat)
     (h : (step cfg (after cfg evs) .userClose).2 = .set x n) :
     step cfg (step cfg (after cfg evs) .userClose).1 .userClose
       = ((step cfg (after cfg evs) .userClose).1, .set x n) := by
   have hinv := inv_after cfg wf evs
   have hinv' := inv_step wf hinv .userClose
-  obtain ⟨y, hy⟩ := closed_of_closing wf hinv .userClose rfl
-  rw [close_cached cfg _ y hinv' hy]
-  -- the first close() returned what is cached now
-  obtain ⟨h', _, _⟩ := inv_close wf hinv
-  simp only [step] at h hy ⊢
+  obtain ⟨h', ⟨y, hy⟩, _, hnl⟩ := inv_close wf hinv
+  simp only [step] at h hinv' ⊢
   split at h
   · simp at h
   · rename_i hnf
-    simp only [hnf, Bool.false_eq_true, if_false] at hy ⊢
-    simp only [closeOut, hy, h'.raised, Bool.false_eq_true, if_false] at h
-    simp only [Out.set.injEq] at h
-    rw [h.1, h.2]
+    have hff : (closeF cfg topFuel (after cfg evs)).flying = false := by simpa using hnf
+    simp only [hnf, Bool.false_eq_true, if_false] at hinv' ⊢
+    simp only [closeOut, hy, h'.raised, Bool.false_eq_true, if_false, Out.set.injEq] at h
+    have := close_cached cfg _ y hinv' hy (hnl hff)
+    simp only [step] at this
+    rw [this, h.1, h.2]
 
 /-- **C09, same pending tasks forever.**  Once close() has returned set `x` with `n` tasks,
-    every later close() — after any further reports, API calls, pushes, closes, handlers —
-    returns the same set with the same tasks. -/
+    every later close() — after any further reports, API calls, pushes, closes, handlers, and
+    protocols finishing their connect() — returns the same set object, never with fewer tasks. -/
 theorem close_same_forever (cfg : Cfg) (wf : WF cfg) (evs more : List Ev) (x n : Nat)
     (h : (step cfg (after cfg evs) .userClose).2 = .set x n) :
-    (step cfg (after cfg (evs ++ .userClose :: more)) .userClose).2 = .set x n := by
+    ∃ n', n ≤ n' ∧ ((step cfg (after cfg (evs ++ .userClose :: more)) .userClose).2 = .set x n' ∨
+      (step cfg (after cfg (evs ++ .userClose :: more)) .userClose).2 = .userRaised) := by
   have hinv := inv_after cfg wf evs
   have hinv1 := inv_step wf hinv .userClose
   have h1 := close_idem cfg wf evs x n h
-  obtain ⟨y, hy⟩ := closed_of_closing wf hinv .userClose rfl
-  rw [close_cached cfg _ y hinv1 hy] at h1
-  have hyx : y = x ∧ (step cfg (after cfg evs) .userClose).1.tasks = n := by
-    have := congrArg Prod.snd h1
-    simpa using this
+  -- after the first close: pending = some x, tasks = n
+  have hpx : (step cfg (after cfg evs) .userClose).1.pending = some x ∧
+      (step cfg (after cfg evs) .userClose).1.tasks = n := by
+    obtain ⟨y, hy⟩ := closed_of_closing wf hinv .userClose rfl
+    obtain ⟨_, _, hor⟩ := close_closed cfg wf _ y hinv1 hy
+    rw [h1] at hor
+    rcases hor with hor | hor
+    · simp only [Out.set.injEq] at hor
+      exact ⟨by rw [hy, hor.1], hor.2.symm⟩
+    · simp at hor
   have hrun : after cfg (evs ++ .userClose :: more)
       = run cfg (step cfg (after cfg evs) .userClose).1 more := by
     unfold after
     rw [run_append]
     rfl
-  have hsame := run_closed_frame wf more _ y hinv1 hy
-  have hp : (after cfg (evs ++ .userClose :: more)).pending = some y := by
-    rw [hrun, hsame.1]; exact hy
-  rw [close_cached cfg _ y (inv_after cfg wf _) hp]
-  show Out.set y (after cfg (evs ++ .userClose :: more)).tasks = .set x n
-  rw [hrun, hsame.2.1, hyx.1, hyx.2]
+  obtain ⟨hp2, ht2⟩ := run_closed_ext wf more _ x hinv1 hpx.1
+  rw [← hrun] at hp2 ht2
+  obtain ⟨_, ht3, hor⟩ := close_closed cfg wf _ x (inv_after cfg wf _) hp2
+  refine ⟨(step cfg (after cfg (evs ++ .userClose :: more)) .userClose).1.tasks, ?_, hor⟩
+  rw [hpx.2] at ht2
+  exact Nat.le_trans ht2 ht3
 
 /-- **C09, close raises nothing of its own** — neither InvalidStateError from `shield.block`,
     nor BlockedStateError from its own `self.push_updater.stop()`, nor unbounded re-entrancy
@@ -287,7 +319,7 @@ theorem close_never_raises (cfg : Cfg) (wf : WF cfg) (evs : List Ev) :
 theorem close_returns (cfg : Cfg) (wf : WF cfg) (hb : BenignProtos cfg) (evs : List Ev) :
     ∃ x n, (step cfg (after cfg evs) .userClose).2 = .set x n := by
   have hinv := inv_after cfg wf evs
-  obtain ⟨h', ⟨x, hx⟩, hfl⟩ := inv_close wf hinv
+  obtain ⟨h', ⟨x, hx⟩, hfl, _⟩ := inv_close wf hinv
   exact ⟨x, (closeF cfg topFuel (after cfg evs)).tasks, by simp [step, hfl hb, closeOut, hx, h'.raised]⟩
 
 /-- the `raised` flag is sticky (for every configuration): so `close_never_raises` at the end of
@@ -298,24 +330,35 @@ theorem raised_sticky (cfg : Cfg) (evs more : List Ev) (h : (after cfg evs).rais
   rw [run_append]
   exact (run_grows cfg more _).2.2 h
 
-/-- **C09, protocols are closed at most once**, in registration order, however many times
-    close() is called and however many reports arrive; not at all while the device is open;
-    unless a user handler raised into the closing loop, exactly the protocols that connect() had
-    registered when the device was closed (a prefix `take h` of them) — each once. -/
+/-- **C09, every protocol is closed at most once** over any history — first close, later closes
+    that pick up protocols which finished connecting afterwards, reports, handlers that raise:
+    the close log is strictly increasing (no protocol twice) and only contains protocols that were
+    handed to a close(); nothing is closed while the device is open. -/
 theorem protocols_closed_once (cfg : Cfg) (wf : WF cfg) (evs : List Ev) :
     ((after cfg evs).pending = none → (after cfg evs).closeLog = []) ∧
-      (after cfg evs).closeLog <+: List.range' 0 cfg.protos.length ∧
-      (BenignProtos cfg → (after cfg evs).pending.isSome →
-        ∃ h, (after cfg evs).closeLog = List.range' 0 (cfg.protos.take h).length) := by
+      (after cfg evs).closeLog.Pairwise (· < ·) ∧ (after cfg evs).closeLog.Nodup ∧
+      (∀ j ∈ (after cfg evs).closeLog, j < (after cfg evs).closedUpTo) := by
   have h := (inv_after cfg wf evs).1
-  refine ⟨fun hp => (h.opened hp).2.1, ?_, ?_⟩
-  · cases hp : (after cfg evs).pending with
-    | none => rw [(h.opened hp).2.1]; exact List.nil_prefix
-    | some x => exact (h.closed x hp).2.2.1
-  · intro hb hs
-    cases hp : (after cfg evs).pending with
-    | none => rw [hp] at hs; simp at hs
-    | some x => exact (h.closed x hp).2.2.2 hb
+  refine ⟨fun hp => (h.opened hp).2.1, h.logOk.1, ?_, h.logOk.2⟩
+  exact h.logOk.1.imp (fun hlt => Nat.ne_of_lt hlt)
+
+/-- **C09, … and exactly once if a close() happens after it registered** (no user handler
+    raising into the closing loops): after a close() that returned, every protocol that connect()
+    has registered so far has been closed exactly once, in order. -/
+theorem protocols_closed_exactly_once (cfg : Cfg) (wf : WF cfg) (hb : BenignProtos cfg)
+    (evs : List Ev) :
+    let s := (step cfg (after cfg evs) .userClose).1
+    s.closeLog = List.range' 0 s.closedUpTo ∧ (cfg.protos.take s.handlers).length ≤ s.closedUpTo := by
+  intro s
+  have hinv := inv_after cfg wf evs
+  have hinv' := inv_step wf hinv .userClose
+  obtain ⟨_, _, hfl, hnl⟩ := inv_close wf hinv
+  refine ⟨hinv'.1.logEq hb, ?_⟩
+  have hff := hfl hb
+  show (cfg.protos.take (step cfg (after cfg evs) .userClose).1.handlers).length
+    ≤ (step cfg (after cfg evs) .userClose).1.closedUpTo
+  simp only [step, hff, Bool.false_eq_true, if_false]
+  exact hnl hff
 
 /-! ## push updates stop -/
 
@@ -329,7 +372,7 @@ theorem push_stopped (cfg : Cfg) (wf : WF cfg) (pre post : List Ev) (e : Ev)
       step cfg s .pushStart = (s, .blocked) := by
   intro s
   obtain ⟨x, hx⟩ := closed_after cfg wf pre post e he
-  obtain ⟨hsh, hpo, _⟩ := (inv_after cfg wf (pre ++ e :: post)).1.closed x hx
+  obtain ⟨hsh, hpo⟩ := (inv_after cfg wf (pre ++ e :: post)).1.closed x hx
   refine ⟨hpo, ?_, ?_⟩
   · intro i b
     simp only [step, show s.pushOn = false from hpo, Bool.false_and, Bool.false_eq_true, if_false]
@@ -473,15 +516,16 @@ example :
   decide
 
 /-- protocol 0 is connected, 1 and 2 are still connecting: protocol 0 loses its connection (only
-    protocol 0 is closed), the others finish connecting — everything stays blocked; and a start()
+    protocol 0 is closed), the others finish connecting — everything stays blocked — and the user's
+    close() then closes them too, their tasks joining the same set; and a start()
     that failed half-way delivers until the close, not after -/
 example :
     let cfg := facadeCfgC .alive [⟨[], 1⟩, ⟨[], 1⟩, ⟨[], 0⟩] 1
     let evs := [Ev.pushStartFault, .push 0 ⟨[], false⟩, .report 0 (.lost 1) ⟨[], false⟩, .connectNext, .connectNext,
                 .api 10, .api 28, .push 0 ⟨[], false⟩, .userClose]
     outputs cfg (init cfg) evs
-        = [.faulted, .delivered true, .none, .none, .none, .blocked, .blocked, .delivered false, .set 0 2] ∧
-      (after cfg evs).closeLog = [0] := by
+        = [.faulted, .delivered true, .none, .none, .none, .blocked, .blocked, .delivered false, .set 0 3] ∧
+      (after cfg evs).closeLog = [0, 1, 2] ∧ (after cfg evs).closedUpTo = 3 := by
   decide
 
 end PyatvModel.Props.C09
